@@ -62,6 +62,7 @@ func genC15(t *rapid.T) (C15Case, bool) {
 	cfg := rtGenConfig()
 	applyRuntimeExclusions(&cfg)
 	cfg.MaxImports = 1
+	cfg.TwiceGenericPct = 35 // a type that reaches the protocol only through the second instantiation of a generic
 	a := model.GenPackage(t, &cfg)
 	b := a.Clone()
 	var c C15Case
